@@ -8,7 +8,13 @@ def build(tier, seed):
     # on an undamaged stripe repair() recomputes parity = generator(synced data): what check / fix compare the parity files with
     for sh, lv in ((['BLK', 'BLK'], 2), (['BLK', 'EMPTY'], 1)):
         J.append(repairgen.job('C04', sh, lv, timeout=1800 if tier == 'quick' else 7200))
+    # scrub: one stripe of the real state_scrub_process - a changed synced block or a changed parity block of a fully synced stripe is reported,
+    # the command fails and exactly that stripe is marked bad; an undamaged stripe reports nothing and is refreshed (shared with C15)
+    import C15
+    for j in C15.build(tier, seed)['jobs']:
+        if 'scrub_step' in j.name and 'faults' not in j.name:
+            j.name = j.name.replace('C15/', 'C04/'); J.append(j)
     return dict(jobs=J, bounds={'block': 64, 'disks': 2},
-        assumptions=['memhash = injective uninterpreted function: "any byte changes => the digest changes" is the collision-freeness assumption of the property'],
+        assumptions=['scrub step: abstract data plane (one 64-bit token per block), contract stubs for io_* / handle_* / parity_* / raid_gen (see C15)', 'memhash = injective uninterpreted function: "any byte changes => the digest changes" is the collision-freeness assumption of the property'],
         trusted=['cbmc 6.11.0', 'kissat', 'uf_hash.h'],
-        outside=['the per-stripe loops of check and scrub (which block of which disk is compared, error tags, bad marks, exit status): the stripe-level harnesses were not completed (DESIGN.md)', 'status listing'])
+        outside=['the per-stripe loop of check (state_check_process): which block is compared, error tags, exit status', 'the text of the error tags of scrub (the stub of log_tag ignores its arguments)', 'status listing', 'more than one stripe per run'])
